@@ -415,6 +415,9 @@ func (ex *exec) applyContract(st *State, ct *Contract, fn *types.Func, recv Valu
 		ex.runtimeCheck(st, "pre", lbl, g, call.Pos())
 	}
 	// havoc assigns
+	if ct.TrustedFrame {
+		ex.trustedClauses[ct.Key+"/frame (trusted_assigns): used at a call site"] = true
+	}
 	for _, a := range ct.Assigns {
 		ex.havocSpecTarget(st, env, a, call.Pos())
 	}
@@ -1134,6 +1137,10 @@ func (ex *exec) checkPost(o *Outcome, fi *FuncInfo, ct *Contract, fr *frame) {
 // checkFrame: every pre-existing object that changed must be covered by assigns.
 func (ex *exec) checkFrame(st *State, fi *FuncInfo, ct *Contract, fr *frame, extra map[string]Value, pos token.Pos) {
 	if !ct.HasAssign {
+		return
+	}
+	if ct.TrustedFrame {
+		ex.trustedClauses[ct.Key+"/frame (trusted_assigns): not checked against the body"] = true
 		return
 	}
 	type target struct {
